@@ -296,3 +296,93 @@ PARTS = [
          budget={'quick': 100, 'thorough': 1500},
          describe='get_series_time_offsets on generated series'),
 ]
+
+
+# ------------------------------------------------------------- table level
+
+from vfw import gen_truth, model_master  # noqa: E402
+from vfw.pipeline import Workflow  # noqa: E402
+
+
+@st.composite
+def table_cases(draw, tier):
+    record = draw(gen_truth.truth_records(noise=True, min_storms=4,
+                                          max_storms=9))
+    record['grid'] = draw(st.sampled_from(['1.0', '0.5', '2.0', '0.25']))
+    record['perturbations'] = [
+        draw(st.lists(st.floats(-1.0, 1.0), min_size=6, max_size=6))
+        for _ in range(2)]
+    return record
+
+
+def check_tables(case):
+    h = float(case['grid'])
+    labels = set()
+    with Workflow(case) as wf:
+        guarded(wf.load)
+        guarded(wf.classify)
+        guarded(wf.zeta_grid, case['grid'])
+        connection = wf.connect()
+        try:
+            rises, _ = model_master.rise_series(connection)
+            recs = model_master.recession_series(connection)
+            plans = {
+                'rise': model_master.main_body(
+                    model_master.crossing_table(rises, h)[0])[2],
+                'recession': model_master.main_body(
+                    model_master.crossing_table(recs, h)[0])[2]}
+        finally:
+            connection.close()
+        done = []
+        for which, run in (('rise', wf.rise), ('recession', wf.recession)):
+            if plans[which]:
+                guarded(run)
+                done.append(which)
+        if not done:
+            raise Reject('both main bodies ambiguous')
+        connection = wf.connect()
+        try:
+            for which in done:
+                if which == 'rise':
+                    offsets = dict(connection.execute(
+                        'SELECT start_epoch, rain_depth_offset_mm '
+                        'FROM rising_interval'))
+                    rows = connection.execute(
+                        'SELECT zeta_number, start_epoch, '
+                        'mean_crossing_depth_mm FROM rising_interval_zeta'
+                    ).fetchall()
+                else:
+                    offsets = dict(connection.execute(
+                        'SELECT start_epoch, time_offset_s '
+                        'FROM recession_interval'))
+                    rows = connection.execute(
+                        'SELECT zeta_number, start_epoch, '
+                        'mean_crossing_time FROM recession_interval_zeta'
+                    ).fetchall()
+                table = {}
+                for k, start, c in rows:
+                    table.setdefault(k, {})[start] = c
+                if any(len(row) < 2 for row in table.values()):
+                    raise Violation(
+                        'table-level-crossed-by-single-interval:' + which,
+                        'a stored level has one interval only')
+                try:
+                    verify_minimiser(
+                        table, {s: float(o) for s, o in offsets.items()},
+                        case['perturbations'] + _unit_vectors(len(offsets)))
+                except Violation as vio:
+                    raise Violation(vio.signature + ':' + which + '-table',
+                                    vio.detail) from vio
+                if len(offsets) >= 3:
+                    labels.add(which + '>=3-intervals')
+        finally:
+            connection.close()
+    if {'rise>=3-intervals', 'recession>=3-intervals'} & labels:
+        labels.add('nontrivial')
+    return labels
+
+
+PARTS.append(
+    Part('tables', check_tables, strategy=lambda tier: table_cases(tier),
+         budget={'quick': 15, 'thorough': 150},
+         describe='stationarity of the tables written by rise / recession'))
